@@ -7,9 +7,10 @@
 #
 # @author Davide Brunato <brunato@sissa.it>
 #
+import re
 from decimal import Decimal
 from math import isinf, isnan
-from typing import Optional, SupportsInt, SupportsFloat, TYPE_CHECKING, Union
+from typing import cast, Optional, SupportsInt, SupportsFloat, TYPE_CHECKING, Union
 from xml.etree.ElementTree import Element
 from elementpath import datatypes
 
@@ -264,6 +265,23 @@ def error_type_validator(value: object) -> None:
 
 #
 # XSD builtin decoding functions
+
+INTEGER_PATTERN = re.compile(r'^\s*[+-]?[0-9]+\s*$')
+
+
+def str_to_int(value: Union[str, int, float, Decimal]) -> int:
+    """Converts to int, accepting only the lexical space of xs:integer for strings."""
+    if isinstance(value, str) and INTEGER_PATTERN.match(value) is None:
+        raise ValueError(f"invalid literal for int() with base 10: {value!r}")
+    return int(value)
+
+
+def str_to_decimal(value: Union[str, int, float, Decimal]) -> Decimal:
+    """Converts to decimal, refusing strings with whitespaces between digits."""
+    if isinstance(value, str) and ' ' in value.strip():
+        raise ValueError(f"invalid literal for xs:decimal: {value!r}")
+    return cast(Decimal, datatypes.DecimalProxy(value))
+
 
 def boolean_to_python(value: str) -> bool:
     try:
